@@ -12,15 +12,16 @@
 //!   c02 corr <seed> <n>         lines "<case> => <verdict class> <deep evaluations>" for honest proofs with ONE component
 //!                               perturbed after proving; the case carries the parsed proof and the coin outputs.
 //!   c02 one <seed> <n> <idx> [maxlog]   re-run case <idx> of the falsify stream verbosely (replay).
+//!   c02 lag <seed> <n> <idx>    re-run case <idx> of stream 3 (Lagrange kernel column) verbosely (replay).
 use std::cell::RefCell;
 use std::collections::BTreeMap;
 use std::marker::PhantomData;
 use std::panic::AssertUnwindSafe;
 
-use wf_harness::{airfam::*, catch, coinrec, coinrec::RecordingCoin, jstr, prng::Rng, silence_panics, toy::ToyHasher};
+use wf_harness::{airfam::*, catch, coinrec, coinrec::RecordingCoin, jstr, lagfam::{LagAir, LagTrace}, prng::Rng, silence_panics, toy::ToyHasher};
 use winter_air::{
     proof::{Context, OodFrame, Proof, Queries, TraceOodFrame},
-    Air, AirContext, AuxRandElements, ConstraintCompositionCoefficients, EvaluationFrame, FieldExtension, ProofOptions, TraceInfo,
+    Air, AirContext, AuxRandElements, ConstraintCompositionCoefficients, EvaluationFrame, FieldExtension, LagrangeKernelRandElements, ProofOptions, TraceInfo,
     TransitionConstraintDegree,
 };
 use winter_crypto::{
@@ -28,7 +29,7 @@ use winter_crypto::{
     DefaultRandomCoin, ElementHasher, MerkleTree, RandomCoin,
 };
 use winter_math::{fields::{f128, f62, f64, CubeExtension, QuadExtension}, ExtensibleField, FieldElement, StarkField};
-use winter_prover::{matrix::ColMatrix, AuxTraceWithMetadata, DefaultConstraintEvaluator, DefaultTraceLde, Prover, StarkDomain, Trace, TracePolyTable};
+use winter_prover::{matrix::ColMatrix, AuxTraceWithMetadata, DefaultConstraintEvaluator, DefaultTraceLde, Prover, ProverGkrProof, StarkDomain, Trace, TracePolyTable};
 use winter_verifier::{verify, AcceptableOptions, VerifierError};
 
 type B62 = f62::BaseElement;
@@ -435,7 +436,7 @@ fn gen_case(r: &mut Rng, idx: usize) -> Option<Case> {
 
 // ------------------------------------------------------------------------------------------------ judgement
 #[derive(Default)]
-struct Tally { evals: usize, fails: usize, xchk: usize, classes: BTreeMap<String, [usize; 4]>, verdicts: BTreeMap<String, usize>, combos: BTreeMap<String, usize> }
+struct Tally { evals: usize, fails: usize, xchk: usize, classes: BTreeMap<String, [usize; 4]>, verdicts: BTreeMap<String, usize>, combos: BTreeMap<String, usize>, lagcov: BTreeMap<String, usize> }
 // per class: [cases, invalid&rejected, valid&accepted, skipped]
 
 fn fail_json(what: &str, c: &Case, expected: &str, actual: &str, extra: &str) -> String {
@@ -609,6 +610,221 @@ fn stream2(r: &mut Rng, n: usize, t: &mut Tally) {
         match res {
             Ok(()) => done += 1,
             Err(m) => { *t.verdicts.entry(format!("pub:skipped:{}", m.chars().take(40).collect::<String>())).or_insert(0) += 1; }
+        }
+    }
+}
+
+// ------------------------------------------------------------------------------------------------ stream 3: Lagrange kernel column
+// Members of the Lagrange family (harness/src/lagfam.rs: one main column 0,1,2,.., `aw` auxiliary columns, the last one
+// declared as Lagrange kernel column).  The column must hold  c(i) = prod_b (r_b if bit b of i is set else 1 - r_b)  for the
+// v = log2(n) random elements r of the GKR step; the library enforces it with ONE boundary constraint c(0) = prod (1 - r_b)
+// and v transition constraints (air/src/air/lagrange/transition.rs): constraint k (1..v) is
+//      r_(v-k) * c(x) = (1 - r_(v-k)) * c(g^(2^(v-k)) * x)   on the subgroup of size 2^(k-1),
+// i.e. it reads the rows i = j * 2^(v-k+1) (as c(x)) and i + 2^(v-k).  Constraint v is the only one that reads odd rows.
+// A row m = 2^(v-k) * odd is read by constraint k (as the shifted row) and by every constraint k' > k (as c(x)); multiplying
+// the whole block [m, m + 2^(v-k)) by a factor != 1 keeps the (homogeneous) constraints k' > k inside the block and breaks
+// constraint k at the single step m - 2^(v-k): exactly ONE violated constraint.
+// Oracle (independent of the library): the definition above, evaluated on the column the prover commits to.
+#[derive(Clone, Debug)]
+enum LagCorr { None, AddRows(Vec<usize>), ScaleBlock { start: usize, len: usize }, ScaleAll }
+
+#[derive(Clone, Debug)]
+struct LagCase { idx: usize, class: String, field: &'static str, hasher: &'static str, opts: Opts, log_n: u32, aw: usize, nr: usize, corr: LagCorr, delta: u64 }
+
+#[derive(Clone, Debug, Default)]
+struct LagOracle { is_kernel: bool, boundary_violated: bool, violated: Vec<usize> } // violated: constraint numbers k in 1..=v
+
+thread_local! { static LAG_ORACLE: RefCell<Option<LagOracle>> = RefCell::new(None); }
+
+fn lag_oracle<E: FieldElement>(col: &[E], r: &[E]) -> LagOracle {
+    let n = col.len();
+    let v = r.len();
+    let kernel: Vec<E> = (0..n).map(|row| r.iter().enumerate().fold(E::ONE, |acc, (bit, &ri)| if row & (1 << bit) == 0 { acc * (E::ONE - ri) } else { acc * ri })).collect();
+    let boundary_violated = col[0] != r.iter().fold(E::ONE, |a, &ri| a * (E::ONE - ri));
+    let mut violated = vec![];
+    for k in 1..=v {
+        let shift = 1usize << (v - k);
+        let step = shift * 2;
+        let rk = r[v - k];
+        if (0..n).step_by(step).any(|i| rk * col[i] != (E::ONE - rk) * col[i + shift]) { violated.push(k); }
+    }
+    LagOracle { is_kernel: col == &kernel[..], boundary_violated, violated }
+}
+
+struct LagCProver<B: StarkField, H, R> { options: ProofOptions, aw: usize, corr: LagCorr, delta: u64, _p: PhantomData<(B, H, R)> }
+
+impl<B, H, R> Prover for LagCProver<B, H, R>
+where B: StarkField + ExtensibleField<2> + ExtensibleField<3> + 'static, H: ElementHasher<BaseField = B> + Send + Sync,
+      R: RandomCoin<BaseField = B, Hasher = H> + Send + Sync {
+    type BaseField = B;
+    type Air = LagAir<B>;
+    type Trace = LagTrace<B>;
+    type HashFn = H;
+    type RandomCoin = R;
+    type TraceLde<E: FieldElement<BaseField = B>> = DefaultTraceLde<E, H>;
+    type ConstraintEvaluator<'a, E: FieldElement<BaseField = B>> = DefaultConstraintEvaluator<'a, LagAir<B>, E>;
+    fn get_pub_inputs(&self, _t: &LagTrace<B>) {}
+    fn options(&self) -> &ProofOptions { &self.options }
+    fn new_trace_lde<E: FieldElement<BaseField = B>>(&self, trace_info: &TraceInfo, main_trace: &ColMatrix<B>, domain: &StarkDomain<B>) -> (Self::TraceLde<E>, TracePolyTable<E>) { DefaultTraceLde::new(trace_info, main_trace, domain) }
+    fn new_evaluator<'a, E: FieldElement<BaseField = B>>(&self, air: &'a LagAir<B>, aux: Option<AuxRandElements<E>>, cc: ConstraintCompositionCoefficients<E>) -> Self::ConstraintEvaluator<'a, E> { DefaultConstraintEvaluator::new(air, aux, cc) }
+    fn generate_gkr_proof<E: FieldElement<BaseField = B>>(&self, main_trace: &LagTrace<B>, public_coin: &mut Self::RandomCoin) -> (ProverGkrProof<Self>, LagrangeKernelRandElements<E>) {
+        let k = main_trace.main.num_rows().ilog2() as usize;
+        let v: Vec<E> = (0..k).map(|_| public_coin.draw().unwrap()).collect();
+        (k, LagrangeKernelRandElements::new(v))
+    }
+    fn build_aux_trace<E: FieldElement<BaseField = B>>(&self, main_trace: &LagTrace<B>, aux: &AuxRandElements<E>) -> ColMatrix<E> {
+        // the honest columns exactly as LagProver builds them ...
+        let main = main_trace.main_segment();
+        let r = aux.lagrange().expect("lagrange random elements");
+        let sum = r.iter().fold(E::ZERO, |a, &x| a + x) + aux.rand_elements().iter().fold(E::ZERO, |a, &x| a + x);
+        let mut cols: Vec<Vec<E>> = (1..self.aw).map(|_| main.get_column(0).iter().map(|v| sum.mul_base(*v)).collect()).collect();
+        let n = main.num_rows();
+        let mut lag: Vec<E> = (0..n).map(|row| r.iter().enumerate().fold(E::ONE, |acc, (bit, &ri)| if row & (1 << bit) == 0 { acc * (E::ONE - ri) } else { acc * ri })).collect();
+        // ... then the corruption of the Lagrange kernel column
+        let dv = E::from(B::from((self.delta % 0xFFFF_FFFE) as u32)) + E::ONE;       // never zero
+        let lam = E::from(B::from(2 + (self.delta % 1000) as u32));                  // never zero or one
+        match &self.corr {
+            LagCorr::None => {}
+            LagCorr::AddRows(rows) => for &i in rows { lag[i] += dv; },
+            LagCorr::ScaleBlock { start, len } => for i in *start..*start + *len { lag[i] *= lam; },
+            LagCorr::ScaleAll => for x in lag.iter_mut() { *x *= lam; },
+        }
+        let rv: Vec<E> = r.iter().copied().collect();
+        LAG_ORACLE.with(|o| *o.borrow_mut() = Some(lag_oracle(&lag, &rv)));
+        cols.push(lag);
+        ColMatrix::new(cols)
+    }
+}
+
+struct LagRun { oracle: LagOracle, outcome: Outcome }
+
+fn run_lag<B, H>(c: &LagCase) -> Result<LagRun, String>
+where B: StarkField + ExtensibleField<2> + ExtensibleField<3> + 'static, H: ElementHasher<BaseField = B> + Send + Sync {
+    let opts = make_opts(&c.opts).ok_or("options")?;
+    let trace = LagTrace::<B>::new(c.log_n, c.aw, c.nr);
+    let prover = LagCProver::<B, H, DefaultRandomCoin<H>> { options: opts.clone(), aw: c.aw, corr: c.corr.clone(), delta: c.delta, _p: PhantomData };
+    LAG_ORACLE.with(|o| *o.borrow_mut() = None);
+    let res = catch(AssertUnwindSafe(|| prover.prove(trace)));
+    let oracle = LAG_ORACLE.with(|o| o.borrow().clone()).ok_or("aux-trace-not-built")?;
+    // the oracle's two readings of the definition must agree: the column is the kernel <=> no constraint is violated
+    if oracle.is_kernel != (!oracle.boundary_violated && oracle.violated.is_empty()) { return Err("lagrange-oracle-inconsistent".into()); }
+    let proof = match res {
+        Ok(Ok(p)) => p,
+        Ok(Err(e)) => return Ok(LagRun { oracle, outcome: Outcome::ProveFailed(format!("err:{}", e)) }),
+        Err(m) => return Ok(LagRun { oracle, outcome: Outcome::ProveFailed(format!("panic:{}", m.chars().take(120).collect::<String>())) }),
+    };
+    let proof = match Proof::from_bytes(&proof.to_bytes()) { Ok(p) => p, Err(e) => return Ok(LagRun { oracle, outcome: Outcome::Rejected(format!("reparse:{}", e)) }) };
+    let acc = AcceptableOptions::OptionSet(vec![opts]);
+    let outcome = match catch(AssertUnwindSafe(|| verify::<LagAir<B>, H, DefaultRandomCoin<H>>(proof, (), &acc))) {
+        Ok(Ok(())) => Outcome::Accepted,
+        Ok(Err(e)) => Outcome::Rejected(vclass(&e).to_string()),
+        Err(m) => Outcome::Rejected(format!("panic:{}", m.chars().take(80).collect::<String>())),
+    };
+    Ok(LagRun { oracle, outcome })
+}
+
+fn run_lag_case(c: &LagCase) -> Result<LagRun, String> { dispatch!(run_lag, c.field, c.hasher, c) }
+
+const LAG_NAMED: [&str; 9] = ["lagrange:honest", "lagrange:odd-rows-only", "lagrange:even-rows-only", "lagrange:single-row-0", "lagrange:single-row-1",
+    "lagrange:single-row-2", "lagrange:single-row-n/2", "lagrange:single-row-n-1", "lagrange:boundary-value"];
+/// trace lengths for which every one of the log2(n) transition constraints must be the ONLY violated one in some case
+const LAG_ONLY_LOGS: [u32; 3] = [3, 4, 6];
+
+fn lag_case_desc(c: &LagCase) -> String {
+    format!("stream3 idx={} class={} field={} hasher={} opts={:?} n={} aux_width={} aux_rands={} corruption={:?} delta={}", c.idx, c.class, c.field, c.hasher, c.opts, 1usize << c.log_n, c.aw, c.nr, c.corr, c.delta)
+}
+
+fn gen_lag_cases(r: &mut Rng, rounds: usize) -> Vec<LagCase> {
+    let mut combos: Vec<(&'static str, &'static str, u8)> = vec![];
+    for f in FIELDS { for h in hashers_of(f) { for e in 1..=3u8 { if ext_supported(f, e) { combos.push((f, h, e)); } } } }
+    let mut out = vec![];
+    let mut idx = 0;
+    for round in 0..rounds {
+        let mut plan: Vec<(String, u32)> = LAG_NAMED.iter().map(|c| (c.to_string(), 3 + r.below(4) as u32)).collect();
+        for &lg in LAG_ONLY_LOGS.iter() { for k in 1..=lg { plan.push((format!("lagrange:only-constraint:n{}:k{}", 1usize << lg, k), lg)); } }
+        for (ci, (class, log_n)) in plan.into_iter().enumerate() {
+            let n = 1usize << log_n;
+            let v = log_n as usize;
+            let (field, hasher, ext) = combos[(round * 7 + ci * 5) % combos.len()];
+            let blowup = *r.pick(&[8usize, 8, 16]);
+            let lde = n * blowup;
+            let (fold, rem) = pick_fri(r, lde, blowup);
+            let q = (20 + r.below(21) as usize).min(lde - 1);
+            let opts = Opts { q, blowup, grind: *r.pick(&[0u32, 0, 3]), ext, fold, rem };
+            let parts: Vec<&str> = class.split(':').collect();
+            let corr = match parts[1] {
+                "honest" => LagCorr::None,
+                "odd-rows-only" => if r.chance(1, 2) { LagCorr::AddRows((0..n).filter(|i| i % 2 == 1).collect()) } else {
+                    let mut rows: Vec<usize> = (0..n).filter(|i| i % 2 == 1 && r.chance(1, 3)).collect();
+                    if rows.is_empty() { rows.push(1 + 2 * r.below((n / 2) as u64) as usize); }
+                    LagCorr::AddRows(rows) },
+                "even-rows-only" => {
+                    let mut rows: Vec<usize> = (0..n).filter(|i| i % 2 == 0 && r.chance(1, 3)).collect();
+                    if rows.is_empty() { rows.push(2 * r.below((n / 2) as u64) as usize); }
+                    LagCorr::AddRows(rows) }
+                "single-row-0" => LagCorr::AddRows(vec![0]),
+                "single-row-1" => LagCorr::AddRows(vec![1]),
+                "single-row-2" => LagCorr::AddRows(vec![2]),
+                "single-row-n/2" => LagCorr::AddRows(vec![n / 2]),
+                "single-row-n-1" => LagCorr::AddRows(vec![n - 1]),
+                "boundary-value" => LagCorr::ScaleAll,
+                _ => {
+                    let k: usize = parts[3][1..].parse().unwrap();
+                    let len = 1usize << (v - k);
+                    let odd = 1 + 2 * r.below((1u64 << k) / 2) as usize;   // odd < 2^k
+                    LagCorr::ScaleBlock { start: len * odd, len }
+                }
+            };
+            out.push(LagCase { idx, class, field, hasher, opts, log_n, aw: 2 + r.below(2) as usize, nr: r.below(3) as usize, corr, delta: r.next_u64() });
+            idx += 1;
+        }
+    }
+    out
+}
+
+fn stream3(r: &mut Rng, rounds: usize, t: &mut Tally, only: Option<usize>) {
+    for c in gen_lag_cases(r, rounds) {
+        if let Some(o) = only { if o != c.idx { continue; } }
+        let e = t.classes.entry(c.class.clone()).or_insert([0; 4]);
+        let run = match run_lag_case(&c) { Ok(x) => x, Err(m) => {
+            e[3] += 1;
+            if m == "lagrange-oracle-inconsistent" { t.fails += 1; println!("{{\"what\":\"oracle-disagreement: Lagrange kernel definition vs its constraints\",\"input\":{},\"expected\":\"column is the kernel <=> no constraint violated\",\"actual\":\"inconsistent\"}}", jstr(&lag_case_desc(&c))); }
+            if only.is_some() { println!("skipped: {}", m); }
+            continue; } };
+        e[0] += 1;
+        t.evals += 1;
+        { let mut c0 = c.clone(); c0.idx = 0; println!("h {:016x}", fnv(&lag_case_desc(&c0))); }
+        *t.combos.entry(format!("{}/{}/ext{}", c.field, c.hasher, c.opts.ext)).or_insert(0) += 1;
+        let valid = run.oracle.is_kernel;
+        if only.is_some() { println!("{}\noracle={:?} outcome={:?}", lag_case_desc(&c), run.oracle, run.outcome); }
+        let vk = match &run.outcome { Outcome::Accepted => "accepted".to_string(), Outcome::Rejected(s) => format!("rejected:{}", s.split(':').next().unwrap_or("")), Outcome::ProveFailed(s) => format!("prove-failed:{}", s.split(':').next().unwrap_or("")) };
+        *t.verdicts.entry(format!("lagrange:{}{}", if valid { "valid->" } else { "invalid->" }, vk)).or_insert(0) += 1;
+        let vio = format!("boundary_violated={} violated_transition_constraints={:?}", run.oracle.boundary_violated, run.oracle.violated);
+        // which (n, k) had constraint k as the ONLY violated constraint
+        if !run.oracle.boundary_violated && run.oracle.violated.len() == 1 {
+            *t.lagcov.entry(format!("n{}:k{}", 1usize << c.log_n, run.oracle.violated[0])).or_insert(0) += 1;
+        }
+        match (valid, &run.outcome) {
+            (false, Outcome::Accepted) => {
+                let mut confirmations = 0;
+                let mut tried = 0;
+                for h in hashers_of(c.field) {
+                    if *h == c.hasher { continue; }
+                    let mut c2 = c.clone();
+                    c2.hasher = h;
+                    if let Ok(r2) = run_lag_case(&c2) { tried += 1; if !r2.oracle.is_kernel && r2.outcome == Outcome::Accepted { confirmations += 1; } }
+                    if tried >= 3 { break; }
+                }
+                t.fails += 1;
+                println!("{{\"what\":\"accepted proof of an INVALID Lagrange kernel column\",\"input\":{},\"expected\":{},\"actual\":\"verify = Ok\",\"confirmed_with_other_hashers\":\"{}/{}\"}}",
+                    jstr(&lag_case_desc(&c)), jstr(&format!("rejected ({})", vio)), confirmations, tried);
+            }
+            (false, _) => e[1] += 1,
+            (true, Outcome::Accepted) => e[2] += 1,
+            (true, o) => {
+                t.fails += 1;
+                println!("{{\"what\":\"valid Lagrange kernel column not accepted\",\"input\":{},\"expected\":\"accepted\",\"actual\":{}}}", jstr(&lag_case_desc(&c)), jstr(&format!("{:?}", o)));
+            }
         }
     }
 }
@@ -1057,6 +1273,9 @@ fn cmd_run(args: &[String], cmd: String, seed: u64, n: usize) {
             if only.is_none() {
                 let mut r = Rng::new(seed ^ 0x5EED_2);
                 stream2(&mut r, (n / 40).max(3), &mut t);
+                // stream 3: Lagrange kernel column (n / 40 rounds of 22 cases: 22 rounds in the quick tier)
+                let mut r = Rng::new(seed ^ 0x1A6_3);
+                stream3(&mut r, (n / 40).max(4), &mut t, None);
             }
             let cls: Vec<String> = t.classes.iter().map(|(k, v)| format!("{}:{{\"cases\":{},\"rejected\":{},\"valid_accepted\":{},\"skipped\":{}}}", jstr(k), v[0], v[1], v[2], v[3])).collect();
             println!("classes {{{}}}", cls.join(","));
@@ -1064,7 +1283,15 @@ fn cmd_run(args: &[String], cmd: String, seed: u64, n: usize) {
             println!("verdicts {{{}}}", vd.join(","));
             let cb: Vec<String> = t.combos.iter().map(|(k, v)| format!("{}:{}", jstr(k), v)).collect();
             println!("combos {{{}}}", cb.join(","));
+            let lc: Vec<String> = t.lagcov.iter().map(|(k, v)| format!("{}:{}", jstr(k), v)).collect();
+            println!("lagcov {{{}}}", lc.join(","));
             println!("evaluations={} failures={} validate_crosschecks={}", t.evals, t.fails, t.xchk);
+        }
+        "lag" => {
+            // replay of one case of stream 3: c02 lag <seed> <n> <idx>
+            let mut t = Tally::default();
+            let mut r = Rng::new(seed ^ 0x1A6_3);
+            stream3(&mut r, (n / 40).max(4), &mut t, args.get(4).and_then(|s| s.parse().ok()));
         }
         _ => { eprintln!("usage: c02 corr|falsify|one <seed> <n> [idx]"); std::process::exit(2); }
     }
